@@ -660,6 +660,48 @@ def g_rescale(rng, n):
     return groups
 
 
+def g_midcut(rng, n, fmts=('f64', 'f32'), edge_only=False):
+    """integer rounding boundaries H = (2m+1) * 2^(e-1) cut at decimal digit E: the inputs
+    floor(H / 10^E) * 10^E (just below H) and (floor(H / 10^E) + 1) * 10^E (just above), written with
+    the exponent E (E at the table / power-step fence posts 19, 27, 28, 55, 134..136, 269..271 ...).
+    For E >= 135 the exact product N * 5^E has a long run of zero limbs above its low part, which the
+    long multiplication only produces through carries rippling across all-ones limb sums.
+    edge_only: the top binade and the overflow threshold 2^emax - 2^(emax-p-1)."""
+    out = []
+    ES = [1, 2, 5, 18, 19, 20, 27, 28, 54, 55, 56, 100, 134, 135, 136, 150, 162, 200, 250, 269, 270, 271, 290]
+    tries = 0
+    while len(out) < n and tries < 20 * n:
+        tries += 1
+        fmt = rng.choice(fmts)
+        F = FMT[fmt]
+        p, emax = F['p'], F['emax']
+        if edge_only:
+            k = rng.below(3)
+            if k == 0:
+                mant, e2 = (1 << p) - 1, emax - p                       # threshold: (2^(p+1)-1) * 2^(emax-p-1)
+            elif k == 1:
+                mant, e2 = (1 << p) - 1 - rng.below(4), emax - p
+            else:
+                mant, e2 = (1 << (p - 1)) + rng.below(1 << (p - 1)), emax - p - rng.below(3)
+        else:
+            mant = (1 << (p - 1)) + rng.below(1 << (p - 1))
+            e2 = rng.range(70, emax - p)
+        if e2 - 1 < 0:
+            continue
+        H = (2 * mant + 1) << (e2 - 1)
+        nd = len(str(H))
+        cands = [E for E in ES if E + 21 <= nd]
+        if not cands:
+            continue
+        E = rng.choice(cands)
+        N0 = H // 10 ** E
+        for N in (N0, N0 + 1):
+            i, f, e = split_decimal(str(N), E, rng, rng.choice([0, 0, 0, 2, 3]))
+            if -2 ** 31 <= e < 2 ** 31:
+                out.append(PF(fmt, i, f, e, 'G-MIDCUT/%s' % ('below' if N == N0 else 'above')))
+    return out
+
+
 def g_limbmid(rng, fmts=('f64', 'f32'), groups=False):
     """integer rounding boundaries whose bit length is at (or one off) a multiple of the limb size:
     M = (2*sig+1) * 2^(L-p-1) with L in {64k-1, 64k, 64k+1, 32(2k+1)}, sig even / odd / all-ones /
